@@ -556,15 +556,17 @@ func worker() {
 		fmt.Fprintln(os.Stderr, "c17 worker:", err)
 		os.Exit(2)
 	}
-	out := make([]Obs, len(specs))
+	// one observation per line, written as soon as the run is over: if a goroutine of the code under
+	// test panics (nothing can recover that, the process dies) the parent knows from the number of
+	// lines which run it was
+	enc := json.NewEncoder(os.Stdout)
 	var prev []proto.Message // the slice the previous call returned, and what it held then
 	var prevSnap []int64
-	for i, sp := range specs {
-		var raw []proto.Message
-		out[i], raw = runOne(sp)
+	for _, sp := range specs {
+		ob, raw := runOne(sp)
 		for j := range prev {
 			if canonMsg(prev[j]) != prevSnap[j] {
-				out[i].Aliased = true
+				ob.Aliased = true
 			}
 		}
 		prev = raw
@@ -572,10 +574,8 @@ func worker() {
 		for j := range raw {
 			prevSnap[j] = canonMsg(raw[j])
 		}
+		enc.Encode(ob)
 	}
-	w := bufio.NewWriter(os.Stdout)
-	json.NewEncoder(w).Encode(out)
-	w.Flush()
 }
 
 func runBatches(specs []Spec, batch, par int) ([]Obs, error) {
@@ -593,24 +593,49 @@ func runBatches(specs []Spec, batch, par int) ([]Obs, error) {
 		go func() {
 			defer wg.Done()
 			for j := range jobs {
-				in, _ := json.Marshal(specs[j.lo:j.hi])
-				ctx, cancel := context.WithTimeout(context.Background(), 10*time.Minute)
-				cmd := exec.CommandContext(ctx, exe, "c17-worker")
-				cmd.Stdin = bytes.NewReader(in)
-				var stderr bytes.Buffer
-				cmd.Stderr = &stderr
-				o, err := cmd.Output()
-				cancel()
-				if err != nil {
-					errs <- fmt.Errorf("worker for cases %d-%d: %v: %s", j.lo, j.hi, err, stderr.String())
-					continue
+				crashes := 0
+				for lo := j.lo; lo < j.hi; {
+					in, _ := json.Marshal(specs[lo:j.hi])
+					ctx, cancel := context.WithTimeout(context.Background(), 10*time.Minute)
+					cmd := exec.CommandContext(ctx, exe, "c17-worker")
+					cmd.Stdin = bytes.NewReader(in)
+					var stderr bytes.Buffer
+					cmd.Stderr = &stderr
+					o, err := cmd.Output()
+					cancel()
+					var got []Obs
+					for dec := json.NewDecoder(bytes.NewReader(o)); len(got) < j.hi-lo; {
+						var ob Obs
+						if dec.Decode(&ob) != nil {
+							break
+						}
+						got = append(got, ob)
+					}
+					copy(obs[lo:j.hi], got)
+					k := lo + len(got)
+					if err == nil && k == j.hi {
+						break
+					}
+					// The worker died.  A panic in a goroutine of the code under test (it cannot be recovered
+					// from outside) is an observation of the run that was in progress: record it and carry on
+					// with the rest of the batch.  Anything else is a harness error.
+					es := stderr.String()
+					if err != nil && k < j.hi && crashes < 20 && strings.Contains(es, "panic: ") && strings.Contains(es, "sc-golang/pkg/group.") {
+						crashes++
+						var lines []string
+						for _, l := range strings.Split(es, "\n") {
+							if l = strings.TrimSpace(l); l != "" && len(lines) < 6 {
+								lines = append(lines, l)
+							}
+						}
+						obs[k] = Obs{Kind: "panic", Cancel: -1, RetStep: -1, Calls: []int64{}, Saw: []int64{},
+							Panic: "in a goroutine of pkg/group (the worker process died): " + strings.Join(lines, " | ")}
+						lo = k + 1
+						continue
+					}
+					errs <- fmt.Errorf("worker for cases %d-%d: %v (output for %d runs): %.2000s", lo, j.hi, err, len(got), es)
+					break
 				}
-				var got []Obs
-				if err := json.Unmarshal(o, &got); err != nil || len(got) != j.hi-j.lo {
-					errs <- fmt.Errorf("worker for cases %d-%d: bad output (%v)", j.lo, j.hi, err)
-					continue
-				}
-				copy(obs[j.lo:j.hi], got)
 			}
 		}()
 	}
@@ -902,6 +927,12 @@ func genC17(o *vcoq.Out, r *vcoq.Rand, tier string) error {
 		}
 		o.Directs = append(o.Directs, extraDirects(ob, js)...)
 	}
+	// free-running stage (sched.go): the same functions with no step discipline, schedule-independent facts only
+	freeDs, freeInfo, err := runFree(tier, 4)
+	if err != nil {
+		return err
+	}
+	o.Directs = append(o.Directs, freeDs...)
 	// keep the directs list short: the first of each class is enough for a replay
 	seen := map[string]int{}
 	var ds []vcoq.Direct
@@ -912,6 +943,6 @@ func genC17(o *vcoq.Out, r *vcoq.Rand, tier string) error {
 		}
 	}
 	o.Directs = ds
-	o.Extra["coverage_extra"] = map[string]any{"exhaustive": true, "exhaustive_space": "n<=4, outcomes {ok,fail}^n, all n! orders, Execute strategies 0..7", "worker_batches": (len(specs) + 249) / 250}
+	o.Extra["coverage_extra"] = map[string]any{"exhaustive": true, "exhaustive_space": "n<=4, outcomes {ok,fail}^n, all n! orders, Execute strategies 0..7", "worker_batches": (len(specs) + 249) / 250, "free_running": freeInfo}
 	return nil
 }
